@@ -93,7 +93,7 @@ def run(ctx: Ctx):
     for k, c in enumerate(rig.exhaustive_cases(base_cfg, [login], ctx.scale(3, 4), core)):
         cases.append((f"exhcore:{k}", c))
     rng = ctx.rng.fork("sess")
-    for k in range(ctx.scale(500, 3000)):
+    for k in range(ctx.scale(500, 6000)):
         cases.append((f"gen:{k}", rig.gen_case(rng, max_ops=ctx.scale(30, 60))))
 
     # implementation side, then ONE driver run for all cases
